@@ -158,11 +158,13 @@ func objectValues(v any) any {
 		return nil
 	}
 
-	r := make([]any, len(m))
-	i := 0
+	r := make([]any, 0, len(m))
 	for _, v := range m {
-		r[i] = v
-		i++
+		if v == nil {
+			continue
+		}
+
+		r = append(r, v)
 	}
 
 	return r
